@@ -1370,7 +1370,7 @@ func init() {
 			if c.Thorough() {
 				c15BudgetEnd = time.Now().Add(45 * time.Minute)
 			} else {
-				c15BudgetEnd = time.Now().Add(9 * time.Minute)
+				c15BudgetEnd = time.Now().Add(6 * time.Minute)
 			}
 			if !race {
 				for _, k := range c15LoadCorpus(c) {
